@@ -11,7 +11,7 @@ import random
 
 import networkx as nx
 
-from ..common import Result, sut, digest, SutRaised
+from ..common import Result, sut, digest, SutRaised, tight_stack_call
 from ..exactpoly import P, percolation_poly, percolation_counts, percolation_value, percolation_abs, NONINTEGRAL_FLOATS, ShadowUnsupported
 from ..graphfam import atlas, atlas_graph
 
@@ -230,27 +230,10 @@ def run_case(case):
                 # injected fault: the call is made with only a few frames of stack left, so that it is aborted by RecursionError
                 # somewhere inside the library; the caller catches it and asks again - the answer must be the exact one (an
                 # aborted call must not leave half-filled state behind on the evaluator)
-                import sys
                 H0 = motif_object(g, name)
                 for v in g.nodes():
                     H0.nodes[v]["u"] = 0.5
-                old_limit = sys.getrecursionlimit()
-                depth = 0
-                f = sys._getframe()
-                while f is not None:
-                    depth += 1
-                    f = f.f_back
-                aborted = False
-                try:
-                    sys.setrecursionlimit(depth + rng.randint(3, 14))
-                    try:
-                        ae.automated_equation(H0, 0.5, root)
-                    except RecursionError:
-                        aborted = True
-                    except Exception:
-                        pass
-                finally:
-                    sys.setrecursionlimit(old_limit)
+                aborted = tight_stack_call(lambda: ae.automated_equation(H0, 0.5, root), rng.randint(3, 14))[0] == "aborted"
                 hist.append((name, root, "aborted-by-RecursionError" if aborted else "tight-stack-but-completed"))
                 res.count("calls_aborted_by_injected_recursion_limit" if aborted else "tight_stack_calls_completed")
             mode = rng.choice(["poly", "float", "float"])
